@@ -11,11 +11,15 @@
      later events (or later ready connections of one round) comes after everything written before, on every
      connection, so each receiver's stream is a projection of ONE total order (same relative order at any two
      receivers; one sender's messages in the order the manager read them).
+   - C05_sender_order / C05_same_relative_order (Proofs/OrderServed.v): two data frames serviced one after the other
+     (same sender or not): every receiver that is subscribed, writable, eligible and whose own sends do not fail gets
+     exactly one copy of each, the first one first and with a smaller sequence number - whatever happens to other
+     recipients; two such receivers see them in the same relative order.
    Step-level facts (C05_stamp, C05_sendall_appends, sizes) are kept.  Declared payload sizes: see
    C05_failed_notice_sized / C05_ack_is_whole_frame / C05_forward_sized (call-site level) and the
    correspondence, which compares the byte length of every payload written by the implementation. *)
 From Coq Require Import ZArith List Bool Lia.
-From Mgr Require Import Gen.MgrDefs Model.Manager Proofs.Hoare Proofs.RegInv Proofs.RegTop Proofs.StepInv Proofs.Routing Proofs.OutInv Proofs.C05Inv.
+From Mgr Require Import Gen.MgrDefs Model.Manager Proofs.Hoare Proofs.RegInv Proofs.RegTop Proofs.StepInv Proofs.Routing Proofs.OutInv Proofs.C05Inv Proofs.Exact Proofs.OnlyRecipients Proofs.HealthyServed Proofs.OrderServed.
 Import ListNotations.
 Open Scope Z_scope.
 
@@ -105,3 +109,45 @@ Example C05_unframe_ex : forall h1 p1 h2 p2, unframe [(h1, p1); (h2, p2)] = [OHd
 Proof. reflexivity. Qed.
 Example C05_seqZ_ex : seqZ 1 4 = [1; 2; 3; 4].
 Proof. reflexivity. Qed.
+
+(* ---- order of delivery, unconditional about everybody else ---- *)
+Theorem C05_sender_order : forall cfg FUEL fuel es u s a h1 ip1 s1 b h2 ip2 s2 c,
+  run cfg fuel es = Ok u s ->
+  service cfg FUEL a (IFrame h1 ip1) s = Ok tt s1 -> service cfg FUEL b (IFrame h2 ip2) s1 = Ok tt s2 ->
+  h_extra h1 <> 0 -> h_extra h2 <> 0 -> ~ same_msg h1 h2 ->
+  data_type (h_type h1) -> h_type h1 <> ALL_MESSAGE_TYPES -> bad_size (h_nbytes h1) = false ->
+  bad_dest_mod (h_dst_mod h1) = false -> bad_dest_host (h_dst_host h1) = false -> m_reg (find_mod a (mods s)) = true ->
+  data_type (h_type h2) -> h_type h2 <> ALL_MESSAGE_TYPES -> bad_size (h_nbytes h2) = false ->
+  bad_dest_mod (h_dst_mod h2) = false -> bad_dest_host (h_dst_host h2) = false -> m_reg (find_mod b (mods s1)) = true ->
+  In c (snapshot s (h_type h1)) -> zmem c (wl s) = true -> eligible (h_dst_mod h1) s c = true ->
+  flookup c (faults s) = None ->
+  In c (snapshot s1 (h_type h2)) -> eligible (h_dst_mod h2) s1 c = true ->
+  exists suf, out s2 = out s ++ suf /\
+    exactly_in_order h1 (data_payload h1 ip1) h2 (data_payload h2 ip2) (proj c suf).
+Proof. intros cfg FUEL. exact (two_frames_in_order cfg FUEL). Qed.
+
+Theorem C05_same_relative_order : forall cfg FUEL fuel es u s a h1 ip1 s1 b h2 ip2 s2 c d,
+  run cfg fuel es = Ok u s ->
+  service cfg FUEL a (IFrame h1 ip1) s = Ok tt s1 -> service cfg FUEL b (IFrame h2 ip2) s1 = Ok tt s2 ->
+  h_extra h1 <> 0 -> h_extra h2 <> 0 -> ~ same_msg h1 h2 ->
+  data_type (h_type h1) -> h_type h1 <> ALL_MESSAGE_TYPES -> bad_size (h_nbytes h1) = false ->
+  bad_dest_mod (h_dst_mod h1) = false -> bad_dest_host (h_dst_host h1) = false -> m_reg (find_mod a (mods s)) = true ->
+  data_type (h_type h2) -> h_type h2 <> ALL_MESSAGE_TYPES -> bad_size (h_nbytes h2) = false ->
+  bad_dest_mod (h_dst_mod h2) = false -> bad_dest_host (h_dst_host h2) = false -> m_reg (find_mod b (mods s1)) = true ->
+  (forall r, r = c \/ r = d ->
+     In r (snapshot s (h_type h1)) /\ zmem r (wl s) = true /\ eligible (h_dst_mod h1) s r = true /\ flookup r (faults s) = None /\
+     In r (snapshot s1 (h_type h2)) /\ eligible (h_dst_mod h2) s1 r = true) ->
+  exists suf, out s2 = out s ++ suf /\
+    exactly_in_order h1 (data_payload h1 ip1) h2 (data_payload h2 ip2) (proj c suf) /\
+    exactly_in_order h1 (data_payload h1 ip1) h2 (data_payload h2 ip2) (proj d suf).
+Proof. intros cfg FUEL. exact (same_relative_order cfg FUEL). Qed.
+
+Theorem C05_in_order_meaning : forall h1 p1 h2 p2 l, exactly_in_order h1 p1 h2 p2 l ->
+  (exists x y z n1 n2,
+     l = x ++ [OHdr (set_count h1 n1); OPay p1] ++ y ++ [OHdr (set_count h2 n2); OPay p2] ++ z /\ n1 < n2 /\
+     filter (same_item h1) x = [] /\ filter (same_item h1) y = [] /\
+     filter (same_item h2) y = [] /\ filter (same_item h2) z = []) /\
+  length (filter (same_item h1) l) = 1%nat /\ length (filter (same_item h2) l) = 1%nat.
+Proof. intros h1 p1 h2 p2 l H. exact H. Qed.
+
+Definition C05_order_served_ex := order_served_ex.
